@@ -1,14 +1,22 @@
 ID = "C19"
 LEVEL = "other"
-CONTRACT_MODULES = []
-FUNCTIONS = []
+CONTRACT_MODULES = ["contracts.madx"]
+FUNCTIONS = ["MadxEval.__init__@callbacks"]
 RAC = "rac/c19.py"
 RAC_BUDGET = {"quick": 60, "thorough": 600}
 DESIGN_REF = "DESIGN.md section 4, C19"
-TECHNIQUE = "run-time contracts (deferred vs immediate vs Python on generated sentences of the MAD-X grammar); deductive part under construction"
-TRUSTED = ["lark (LALR construction, both Lark instances parse a string to the same tree)", "Python float arithmetic"]
-ASSUMPTIONS = ["a zero raised to a negative power raises ZeroDivisionError in both evaluations (not a division: no NaN substitution)"]
-BOUNDED = ["everything (this revision)"]
-EXPLANATION = "bounded run-time contract check"
-LEVEL_TEXT = "bounded"
-LEVEL_NOTE = "bounded"
+TECHNIQUE = ("contract-based: the callback table and the grammar of the single evaluator class shared by the deferred and the immediate "
+             "evaluation are decided on the real source (each callback bound to the operator function its rule stands for), the operator "
+             "homomorphisms themselves are the proved C04 overload contracts; + run-time contracts on generated sentences of the grammar")
+TRUSTED = ["lark: LALR construction, both Lark instances parse a string to the same tree, bottom-up Transformer walk",
+           "C04 contracts (operator.f on a reference builds the node whose value is f of the operand values; NaN only for / by zero)",
+           "Python float arithmetic for the 'fully parenthesised equals Python' clause"]
+ASSUMPTIONS = ["a zero raised to a negative power raises ZeroDivisionError in both evaluations (not a division: no NaN substitution)",
+               "the induction over the parse tree is carried by lark's Transformer (trusted), rule by rule the callbacks are the same objects"]
+BOUNDED = ["deferred == immediate == Python on all sentences to depth 2 (quick) / 3, after changes through the manager, repeated "
+           "evaluation of one string, literal-sensitive pairs: run-time only"]
+EXPLANATION = ("decided on every run from xdeps/madxutils.py: add/sub/mul/div/pow/neg/pos are class attributes bound to operator.add/sub/mul/"
+               "truediv/pow/neg/pos, number to float; the grammar maps + - * / ^ ** and the unary signs to exactly these callbacks with the "
+               "documented nesting, and defines no other callback")
+LEVEL_TEXT = "Mixed: callback/grammar table decided syntactically (27 obligations), operator semantics inherited from C04, parser trusted, values bounded at run time. Never claimed as proof."
+LEVEL_NOTE = "See TRUSTED / BOUNDED in the evidence file."
